@@ -24,7 +24,7 @@ ASSUMPTIONS = [
     "WHITESPACE/COMMENT bodies use terminals and silent rules only; trivia rules with @ $ ! modifiers or "
     "stack operations are unspecified and not generated",
 ]
-SIZES = {"quick": 150, "thorough": 4000}
+SIZES = {"quick": 400, "thorough": 4000}
 MODES = refdiff.ALL_MODES
 
 
